@@ -7,6 +7,7 @@ import AbraModel.Drv.Marshal
 import AbraModel.Drv.Sort
 import AbraModel.Drv.CallOrder
 import AbraModel.Drv.Pratt
+import AbraModel.Drv.PrattPrint
 import AbraModel.Drv.Lex
 import AbraModel.Drv.StrOps
 import AbraModel.Drv.SrcMap
@@ -42,6 +43,7 @@ def dispatch (line : String) : String :=
   | "pratt" :: rest => handlePratt rest
   | "prattfix" :: rest => handlePrattFix rest
   | "prattfold" :: rest => handlePrattFold rest
+  | "prattprint" :: rest => handlePrattPrint rest
   | "lex" :: rest => handleLex true rest
   | "lexkinds" :: rest => handleLex false rest
   | "intlit" :: rest => handleIntLit rest
